@@ -5,6 +5,7 @@ import (
 	"go/types"
 	"runtime/debug"
 	"strings"
+
 )
 
 // UnitResult is the outcome of generating VCs for one unit.
@@ -96,63 +97,82 @@ func (prog *Program) VerifyFunc(ct *Contract, opts Options) (res *UnitResult) {
 	if ct.Trusted {
 		return res
 	}
+	x.localMode = len(ct.Keeps) > 0
+	x.entrySt = st
+	x.exitCheck = func(f *frame, val Val, tag string) {
+		post := x.baseEnv(f.st)
+		post.old = st
+		x.bindResult(post, fn.Signature, tupleOf(fn.Signature, val))
+		for _, fv := range fn.FreeVars {
+			if p, ok := under(fv.Type()).(*types.Pointer); ok {
+				post.vars[fv.Name()] = x.heap.load(f.st, x.topVars["&"+fv.Name()], p.Elem())
+			}
+		}
+		pos := prog.pos(fn.Pos())
+		for i := range ct.Ensures {
+			c := ct.Ensures[i]
+			if c.Thorough && !opts.Thorough {
+				if tag == "" || tag == "@r1" {
+					vc.Deferred++
+				}
+				continue
+			}
+			parts := SplitConj(c.Expr)
+			if tag != "" {
+				parts = []SExpr{c.Expr} // per-return checks: one obligation per clause
+			}
+			for j, pe := range parts {
+				pc := c
+				pc.Expr = pe
+				name := "ensures." + clauseName(&c, i)
+				if len(parts) > 1 {
+					name = fmt.Sprintf("%s.%d", name, j+1)
+					pc.Text = SpecString(pe)
+				}
+				t := x.evalClause(post, &pc)
+				f.assertNoAssume(name+tag, "postcondition: "+pc.Text, t, &pc, pos)
+			}
+		}
+		// frame: everything outside the modifies clause is unchanged
+		if !ct.ModAll {
+			for _, k := range x.heap.order {
+				if k == allocKey || strings.HasPrefix(k, "X:iter") || strings.HasPrefix(k, "X:defer:") {
+					continue
+				}
+				cur, ok := f.st.heap[k]
+				if !ok {
+					continue
+				}
+				init := x.heap.initial(k)
+				if cur == init {
+					continue
+				}
+				ff := x.frameFormula(k, x.heap.sorts[k], cur, init, x.entryAlloc())
+				if ff == "true" {
+					continue
+				}
+				f.assertNoAssume("frame."+k+tag, "nothing outside the modifies clause changes: "+k, ff, nil, pos)
+			}
+		}
+	}
 	r := x.run(fn, args, free, st.clone(), pc, 0, true)
-	if r.noRet {
+	if r.noRet && !x.localMode {
 		vc.Notes = append(vc.Notes, "function never returns normally")
 		return res
 	}
 	// non-vacuity: the exit is reachable
-	vc.AddObl(&Obligation{Name: vc.Unit + "#cover.exit", Kind: "cover", Desc: "function exit is reachable under the contract's assumptions (non-vacuity)", Hyp: "true", Goal: r.cond, Cover: true, Props: ct.Props})
-	// ensures
-	f := &frame{x: x, fn: fn, cur: r.cond, st: r.st, top: true}
-	post := x.baseEnv(r.st)
-	post.old = st
-	x.bindResult(post, fn.Signature, tupleOf(fn.Signature, r.val))
-	for _, fv := range fn.FreeVars {
-		if p, ok := under(fv.Type()).(*types.Pointer); ok {
-			post.vars[fv.Name()] = x.heap.load(r.st, x.topVars["&"+fv.Name()], p.Elem())
+	exitCond := r.cond
+	if x.localMode {
+		exitCond = Or(x.retConds...)
+		if len(x.retConds) == 0 {
+			vc.Notes = append(vc.Notes, "function never returns normally")
+			return res
 		}
 	}
-	pos := prog.pos(fn.Pos())
-	for i := range ct.Ensures {
-		c := ct.Ensures[i]
-		if c.Thorough && !opts.Thorough {
-			vc.Deferred++
-			continue
-		}
-		parts := SplitConj(c.Expr)
-		for j, pe := range parts {
-			pc := c
-			pc.Expr = pe
-			name := "ensures." + clauseName(&c, i)
-			if len(parts) > 1 {
-				name = fmt.Sprintf("%s.%d", name, j+1)
-				pc.Text = SpecString(pe)
-			}
-			t := x.evalClause(post, &pc)
-			f.assertNoAssume(name, "postcondition: "+pc.Text, t, &pc, pos)
-		}
-	}
-	// frame: everything outside the modifies clause is unchanged
-	if !ct.ModAll {
-		for _, k := range x.heap.order {
-			if k == allocKey || strings.HasPrefix(k, "X:iter") || strings.HasPrefix(k, "X:defer:") {
-				continue
-			}
-			cur, ok := r.st.heap[k]
-			if !ok {
-				continue
-			}
-			init := x.heap.initial(k)
-			if cur == init {
-				continue
-			}
-			ff := x.frameFormula(k, x.heap.sorts[k], cur, init, x.entryAlloc())
-			if ff == "true" {
-				continue
-			}
-			f.assertNoAssume("frame."+k, "nothing outside the modifies clause changes: "+k, ff, nil, pos)
-		}
+	vc.AddObl(&Obligation{Name: vc.Unit + "#cover.exit", Kind: "cover", Desc: "function exit is reachable under the contract's assumptions (non-vacuity)", Hyp: "true", Goal: exitCond, Cover: true, Props: ct.Props})
+	if !x.localMode {
+		f := &frame{x: x, fn: fn, cur: r.cond, st: r.st, top: true}
+		x.exitCheck(f, r.val, "")
 	}
 	return res
 }
